@@ -623,11 +623,6 @@ func (fr *Frame) appendOp(ins *ssa.Call, c *ssa.CallCommon, reach *Term, st *Sta
 		// reallocated array: prefix copied
 		vc.cmds = append(vc.cmds, fmt.Sprintf("(assert (forall ((p Int)) (! (=> (and (<= 0 p) (< p %s)) (= (select %s p) (select (select %s %s) (+ %s p)))) :pattern ((select %s p)))))",
 			s.sLen(), narr, M, s.sBase(), s.sOff(), narr))
-		// the same fact triggered from the old array (absolute positions): a witness position in the old backing array has its
-		// counterpart in the reallocated one
-		oldArr := vc.define("append.old", inner, Sel(M, s.sBase()))
-		vc.cmds = append(vc.cmds, fmt.Sprintf("(assert (forall ((q Int)) (! (=> (and (<= %s q) (< q (+ %s %s))) (= (select %s (- q %s)) (select %s q))) :pattern ((select %s q)))))",
-			s.sOff(), s.sOff(), s.sLen(), narr, s.sOff(), oldArr, oldArr))
 		if isOne && one == 1 {
 			x := Sel2(M, t.sBase(), t.sOff())
 			mIn = Sto2(M, s.sBase(), IAdd(s.sOff(), s.sLen()), x)
